@@ -33,7 +33,9 @@ LEVEL = "model_checking"
 ALPHA = "ACDEFGHILNQSTVWY"          # no K / R (cleavage); P (proline rule) and M (N-terminal clipping) only in the
 INNER = ALPHA + "PM"                # interior: never first (of a piece or a protein), never right before the K / R
 PREFIXES = ["decoy_", "rev_", "DECOY-", "decoy_"]
-NAME_STYLES = ["T%d", "sp|P%05d|PROT_HUMAN", "wf|target%d", "t%d.1"]
+NAME_STYLES = ["T%d", "sp|P%05d|PROT_HUMAN", "wf|target%d", "t%d.1", "MIX"]
+# "MIX": accessions whose first letter is a letter of the decoy prefix (c1, d1, e1, o1, y1, c2, ...): distinct proteins that
+# only differ in that letter
 MODES = ["mirror", "make_decoys_rev", "make_decoys_shuffle", "none", "partial"]
 ENZYMES = ["[KR]", "[KR](?!P)", "compiled"]
 TMPROOT = "/dev/shm" if os.path.isdir("/dev/shm") else None
@@ -105,7 +107,7 @@ def render(case, workdir):
             return _rand_pep(rng, max_length + 1 + int(rng.integers(0, 3)))
         return ""
 
-    tnames = [style % (k + 1) for k in range(n)]
+    tnames = [("cdeoy"[k % 5] + str(k // 5 + 1)) if style == "MIX" else style % (k + 1) for k in range(n)]
     tseqs, layout = [], []
     for row in inc:
         ids = [int(x) for x in rng.permutation(row)] if len(row) else []
